@@ -696,6 +696,7 @@ var (
 	objBound   map[string]int
 	allocEpoch map[string]int
 	memEpoch   map[string]int // memory version name -> epoch in which it was created
+	privObjKeys map[string]bool // ids of private locals (their address never leaves the function): no loaded pointer, parameter or call result can equal them
 	memAllocOf map[string]*Term // memory version name -> allocation counter of a state in which it was the current memory
 	curEpoch   int
 )
@@ -754,6 +755,14 @@ func distinctIdx(i, j *Term) bool {
 	}
 	if objBound != nil {
 		ki, kj := i.Key(), j.Key()
+		if privObjKeys != nil {
+			if _, loaded := objBound[kj]; loaded && privObjKeys[ki] {
+				return true
+			}
+			if _, loaded := objBound[ki]; loaded && privObjKeys[kj] {
+				return true
+			}
+		}
 		if b, ok := objBound[ki]; ok {
 			if e, ok2 := allocEpoch[kj]; ok2 && b <= e {
 				return true
